@@ -93,6 +93,7 @@ def _(c):
 def _(c):
     c.returns("opt[seq]")
     c.functional = True
+    c.unique_dispatch = True
     c.loop(0, invariant=[("prefix", "len(members) == _k0 and all(not truthy(self.members[j][0]) and same(members[j], self.members[j][1]) for j in range(_k0))")])
     c.ensures("(result is None) == any(truthy(m[0]) for m in self.members)", name="none_iff_variadic_member")
     c.ensures("implies(result is not None, len(result) == len(self.members) and all(same(result[j], self.members[j][1]) for j in range(len(self.members))))", name="members_in_order")
